@@ -42,6 +42,9 @@ class Env:
 
         self.np, self.onnx, self.spox, self.ts = np, onnx, spox, ts
         self.argument = argument
+        import spox.opset.ai.onnx.v17 as op17
+
+        self.op17 = op17
         self.Scope = spox._scope.Scope
         self.StandardNode = spox._standard.StandardNode
         self.Node = spox._node.Node
@@ -612,15 +615,19 @@ def judge(env: Env, mid, op, version, schema, case, r, cls=None):
         out.append((f"{mid}:{op}:signature:extra-required",
                     f"constructor demands arguments the schema does not require: {r['err']}"))
         return out
+    if st == "optional-outputs-not-omittable":
+        out.append((f"{mid}:{op}:outputs:optional-not-omittable",
+                    f"the constructor always emits every optional output; ONNX rejects that here: {r['err']}"[:300]))
+        return out
     if st != "ok":
         out.append((f"{mid}:{op}:call:{st}", f"{st}: {r.get('err', '')}"[:300]))
         return out
     p = r["proto"]
-    node = r["node"]
-    nt = node.op_type
-    if (cls is not None and type(node) is not cls) or (nt.identifier, nt.domain, nt.version) != (
+    node = r.get("node")
+    nt = getattr(node, "op_type", None)
+    if nt is not None and ((cls is not None and type(node) is not cls) or (nt.identifier, nt.domain, nt.version) != (
         schema.name, schema.domain, schema.since_version
-    ):
+    )):
         out.append((f"{mid}:{op}:constructor:class",
                     f"the constructor builds a {type(node).__name__} node {(nt.identifier, nt.domain, nt.version)}; the module's "
                     f"_OPERATORS entry is {getattr(cls, '__name__', None)} and the schema in force is "
@@ -682,6 +689,177 @@ def _slot_name(schema, slot):
             return f.name
         i += 1
     return "inputs"
+
+
+
+# ----------------------------------------------------------------------------- oracle: public API only
+def _f32(*shape):
+    return ("float32", shape)
+
+
+def _i64(*shape):
+    return ("int64", shape)
+
+
+# operators with arguments that are valid for real type inference; everything goes through the
+# public API (constructors of the opset module, spox.argument, spox.build) and the ModelProto
+PUBLIC_SPECS = [
+    {"op": "Clip", "inputs": {"input": _f32(2), "min": _f32(), "max": _f32()}, "attrs": {}},
+    {"op": "Concat", "inputs": {"inputs": [_f32(2), _f32(3), _f32(1)]}, "attrs": {"axis": 0}},
+    {"op": "Sum", "inputs": {"data_0": [_f32(2), _f32(2)]}, "attrs": {}},
+    {"op": "ReduceSum", "inputs": {"data": _f32(2, 3), "axes": _i64(1)}, "attrs": {"keepdims": 0, "noop_with_empty_axes": 1}},
+    {"op": "ReduceMax", "inputs": {"data": _f32(2, 3), "axes": _i64(1)}, "attrs": {"keepdims": 0, "noop_with_empty_axes": 1, "axes": [1]}},
+    {"op": "Gemm", "inputs": {"A": _f32(2, 2), "B": _f32(2, 2), "C": _f32(2, 2)},
+     "attrs": {"alpha": 0.625, "beta": 0.375, "transA": 1, "transB": 1}},
+    {"op": "LeakyRelu", "inputs": {"X": _f32(2)}, "attrs": {"alpha": 0.625}},
+    {"op": "Cast", "inputs": {"input": _f32(2)}, "attrs": {"to": "np.int32", "saturate": 0}},
+    {"op": "Pad", "inputs": {"data": _f32(2, 2), "pads": _i64(4), "constant_value": _f32(), "axes": _i64(2)},
+     "attrs": {"mode": "reflect"}},
+    {"op": "Resize", "inputs": {"X": _f32(1, 1, 2, 2), "roi": _f32(8), "scales": _f32(4), "sizes": _i64(4)},
+     "subsets": [["scales"], ["roi", "scales"], ["sizes"], ["roi", "sizes"]], "attrs": {"mode": "linear"}},
+    {"op": "Slice", "inputs": {"data": _f32(4, 4), "starts": _i64(1), "ends": _i64(1), "axes": _i64(1), "steps": _i64(1)}, "attrs": {}},
+    {"op": "Dropout", "inputs": {"data": _f32(2), "ratio": _f32(), "training_mode": ("bool", ())}, "attrs": {"seed": 3}},
+    {"op": "TopK", "inputs": {"X": _f32(4), "K": _i64(1)}, "attrs": {"axis": 0, "largest": 0, "sorted": 0}},
+    {"op": "Conv", "inputs": {"X": _f32(1, 1, 4, 4), "W": _f32(1, 1, 2, 2), "B": _f32(1)},
+     "attrs": {"dilations": [1, 1], "group": 1, "kernel_shape": [2, 2], "pads": [0, 0, 0, 0], "strides": [1, 1]}},
+    {"op": "BatchNormalization", "inputs": {"X": _f32(1, 2, 2), "scale": _f32(2), "B": _f32(2), "input_mean": _f32(2), "input_var": _f32(2)},
+     "attrs": {"epsilon": 0.625, "momentum": 0.375}},
+    {"op": "Scaler", "inputs": {"X": _f32(2)}, "attrs": {"offset": [0.5], "scale": [1.5]}, "always": ["offset", "scale"]},
+    {"op": "Binarizer", "inputs": {"X": _f32(2)}, "attrs": {"threshold": 0.625}},
+    {"op": "Normalizer", "inputs": {"X": _f32(1, 2)}, "attrs": {"norm": "L1"}},
+]
+
+
+def public_case(env: Env, fn, schema, spec, present, attrs_given, mod=None):
+    """constructor -> spox.build -> the operator's NodeProto in the ModelProto (public API only)"""
+    np, ts = env.np, env.ts
+
+    def mk(t):
+        return env.argument(ts.Tensor(getattr(np, t[0] if t[0] != "bool" else "bool_"), t[1]))
+
+    args, build_in = {}, {}
+    nvar = None
+    for formal in schema.inputs:
+        kind = formal.option.name
+        t = spec["inputs"].get(formal.name)
+        if kind == "Variadic":
+            vs = [mk(x) for x in (t or [])]
+            nvar = len(vs)
+            args[formal.name] = vs
+            for i, v in enumerate(vs):
+                build_in[f"in_{formal.name}_{i}"] = v
+        elif kind == "Single" or formal.name in present:
+            if t is None:
+                return None
+            args[formal.name] = mk(t)
+            build_in[f"in_{formal.name}"] = args[formal.name]
+        else:
+            args[formal.name] = None
+    given = {}
+    for a in attrs_given:
+        v = spec["attrs"][a]
+        given[a] = np.int32 if v == "np.int32" else v
+    case = {"present": sorted(present), "variadic": nvar, "attrs": sorted(given), "mode": "kw", "public": True}
+    shape_of = getattr(mod, "shape", None) or env.op17.shape  # same opset as the operator under test
+    r = {"status": "ok", "given": given, "extra": {}, "node": None}
+    try:
+        with warnings.catch_warnings():
+            warnings.simplefilter("ignore")
+            out = fn(**args, **given)
+            outs = []
+
+            def flat(x):
+                if isinstance(x, env.Var):
+                    outs.append(x)
+                elif isinstance(x, (tuple, list)):
+                    for y in x:
+                        flat(y)
+
+            flat(out)
+            # results go through Shape so that the model's outputs always have a known rank
+            model = env.spox.build(build_in, {f"res_{i}": shape_of(v) for i, v in enumerate(outs)})
+    except Exception as e:  # noqa: BLE001
+        msg = f"{type(e).__name__}: {str(e)[:200]}"
+        if "number of op outputs should be 1" in msg:
+            # the schema's own inference rejects the node because spox cannot leave optional outputs out
+            return case, {**r, "status": "optional-outputs-not-omittable", "err": msg}
+        return case, {**r, "status": "raised", "err": msg}
+    nodes = [n for n in model.graph.node if n.op_type == schema.name and n.domain in (schema.domain, "ai.onnx" if schema.domain == "" else schema.domain)]
+    if len(nodes) != 1:
+        return case, {**r, "status": "not-one-node", "err": f"{len(nodes)} {schema.name} nodes in the built model"}
+    imports = {o.domain: o.version for o in model.opset_import}
+    r["proto"] = nodes[0]
+    r["imports"] = imports
+    return case, r
+
+
+def public_oracle(ck, env: Env, stats):
+    """Model-free and independent of spox internals: runs on every check."""
+    from translator.constructors import MODULES
+
+    for mid, rel, domain, version, pymod in MODULES:
+        try:
+            mod = env.module(pymod)
+            force = env.schemas(domain, version)
+        except Exception as e:  # noqa: BLE001
+            ck.broken("correspondence", f"module {pymod} not importable", f"{type(e).__name__}: {e}")
+            continue
+        for spec in PUBLIC_SPECS:
+            op = spec["op"]
+            schema = force.get(op)
+            ctors = getattr(mod, "_CONSTRUCTORS", {})
+            if schema is None or schema.deprecated or op not in ctors:
+                continue
+            fn = ctors[op]
+            opt_inputs = [f.name for f in schema.inputs if f.option.name == "Optional"]
+            subsets = spec.get("subsets") or [list(c) for r_ in range(len(opt_inputs) + 1)
+                                              for c in itertools.combinations(opt_inputs, r_)]
+            avail = [a for a in spec["attrs"] if a in schema.attributes]
+            required = [a for a in avail if schema.attributes[a].required or a in spec.get("always", [])]
+            missing_required = [a for a, sa in schema.attributes.items() if sa.required and a not in avail]
+            if missing_required:
+                continue
+            optional = [a for a in avail if a not in required]
+            attr_sets = [required, required + optional] + [required + [a] for a in optional]
+            seen = set()
+            for present in subsets:
+                present = [x for x in present if x in opt_inputs]
+                for attrs_given in attr_sets:
+                    key = (tuple(present), tuple(sorted(attrs_given)))
+                    if key in seen:
+                        continue
+                    seen.add(key)
+                    try:
+                        res = public_case(env, fn, schema, spec, set(present), attrs_given, mod)
+                        if res is None:
+                            continue
+                        case, r = res
+                        verdicts = judge(env, mid, op, version, schema, case, r)
+                        verdicts += import_verdict(env, mid, op, schema, r)
+                    except Exception as e:  # noqa: BLE001
+                        ck.broken("correspondence", f"public-API oracle {mid}:{op} not observable", f"{type(e).__name__}: {e}")
+                        continue
+                    stats["public_cases"] += 1
+                    ck.count(("public", mid, op, key))
+                    for k, what in verdicts:
+                        ck.failure(k, what, {"module": mid, "op": op, "kind": "public", "case": case})
+
+
+def import_verdict(env, mid, op, schema, r):
+    """the built model imports the operator's domain at a version where this very schema is in force"""
+    if r["status"] != "ok":
+        return []
+    v = r["imports"].get(schema.domain)
+    s2 = env.schemas(schema.domain, v).get(op) if v is not None else None
+    if s2 is None or s2.since_version != schema.since_version:
+        return [(f"{mid}:{op}:import:version",
+                 f"the model imports {schema.domain!r} at {v}, where {op} means "
+                 f"{getattr(s2, 'since_version', None)}, not {op}-{schema.since_version}")]
+    return []
+
+
+def find_spec(op):
+    return next((s for s in PUBLIC_SPECS if s["op"] == op), None)
 
 
 # ----------------------------------------------------------------------------- correspondence
@@ -793,103 +971,161 @@ def failing_pairs(lean_res) -> set:
     return out
 
 
-def run(ck: core.Check):
-    from translator import constructors
+def internal_oracle(ck, env: Env, info, stats, extra):
+    """All 980 pairs: reflection + real constructor calls observed through `Node.to_onnx`
+    (needs spox internals; every facet that cannot be observed is reported, never raised)."""
     from translator.constructors import MODULES
 
-    info = constructors.generate()
-    for p in info["problems"][:10]:
-        ck.broken("extraction", "translator/constructors.py: unclassifiable source shape", p)
-    ck.cov["pairs"] = len(info["pairs"])
-    ck.cov["pairs_per_module"] = {m: v["n_pairs"] for m, v in info["modules"].items()}
-    ck.cov["listed_deviations"] = [f"{p['module']}:{p['op']}:{','.join(p['except'])}" for p in info["pairs"] if p["except"]]
-    res = ck.lean(["SpoxModel.Props.C11"], audit="SpoxModel.Audit.C11")
-    if ck.thorough:
-        ck.leanchecker(["SpoxModel.Props.C11"] + [f"SpoxModel.Generated.Conforms_{m[0]}" for m in MODULES])
-    bad_pairs = failing_pairs(res)
-    for p in info["pairs"]:
-        ck.obligations.append({"name": f"Generated.Conforms.{p['module']}.{p['theorem']}",
-                               "discharged": res.ok or ((p["module"], p["op"]) not in bad_pairs and _module_built(res, p["module"])),
-                               "axioms": None})
-
-    env = Env()
-    n_cmp = validate_against_live(ck, env, info)
-    ck.cov["extractor_vs_live_comparisons"] = n_cmp
-
-    # ---- model-free oracle + call-model correspondence
-    pairs = {(p["module"], p["op"]): p for p in info["pairs"]}
-    cache = {}  # (fn, schema name, since) -> [(case, result, verdicts-without-module)]
+    pairs = {(p["module"], p["op"]): p for p in (info or {}).get("pairs", [])}
+    cache = {}
     reqs, req_meta = [], []
-    stats = {"calls": 0, "raised": 0, "with_omitted_inner_optional": 0, "with_trimmed_trailing": 0,
-             "attr_values_checked": 0, "dtype_attrs": 0, "graph_attr_calls": 0, "distinct_ctor_schema": 0}
-    extra = ck.pick(2, 40)
+    can_call = True
+    for attr in ("inference", "validate_types", "to_onnx"):
+        if not callable(getattr(env.Node, attr, None)):
+            ck.broken("correspondence", f"Node.{attr} not observable", "the call oracle needs it; falling back to reflection + public-API oracle")
+            can_call = False
+    unobs = 0
     for mid, rel, domain, version, pymod in MODULES:
-        mod = env.module(pymod)
-        force = env.schemas(domain, version)
-        for op, cls in mod._OPERATORS.items():
+        try:
+            mod = env.module(pymod)
+            force = env.schemas(domain, version)
+            operators = dict(mod._OPERATORS)
+            constructors_ = dict(mod._CONSTRUCTORS)
+        except Exception as e:  # noqa: BLE001
+            ck.broken("correspondence", f"module tables of {pymod} not observable", f"{type(e).__name__}: {e}")
+            continue
+        for op, cls in operators.items():
             schema = force.get(op)
             if schema is None:
                 ck.failure(f"{mid}:{op}:schema:absent", f"{op} has no schema in onnx.defs at {domain!r} {version}",
                            {"module": mid, "op": op, "kind": "reflect"})
                 continue
-            fn = mod._CONSTRUCTORS.get(op)
-            for key, what in reflect(env, mid, op, cls, fn, schema):
-                ck.failure(key, what, {"module": mid, "op": op, "kind": "reflect"})
-            ck.count(("reflect", mid, op))
-            if fn is None:
+            fn = constructors_.get(op)
+            try:
+                for key, what in reflect(env, mid, op, cls, fn, schema):
+                    ck.failure(key, what, {"module": mid, "op": op, "kind": "reflect"})
+                ck.count(("reflect", mid, op))
+            except Exception as e:  # noqa: BLE001
+                unobs += 1
+                if unobs <= 3:
+                    ck.broken("correspondence", f"reflection on {mid}:{op} not observable", f"{type(e).__name__}: {e}")
+            if fn is None or not can_call:
                 continue
-            ckey = (fn, schema.name, schema.since_version)
-            first = ckey not in cache
-            if first:
-                stats["distinct_ctor_schema"] += 1
-                runs = []
-                for case in gen_cases(schema, ck.rng, extra, ck.pick(3, 7)):
-                    r = run_case(env, fn, schema, case)
-                    runs.append((case, r))
-                # every schema attribute the constructor might not know (one call each)
-                for a, sa in schema.attributes.items():
-                    if sa.type.name == "SPARSE_TENSOR":
-                        case = {"present": [], "variadic": None, "attrs": [a], "mode": "kw"}
-                        runs.append((case, run_case(env, fn, schema, case)))
-                cache[ckey] = runs
-            for case, r in cache[ckey]:
-                stats["calls"] += 1
-                ck.count(("call", mid, op, tuple(case["present"]), case["variadic"], tuple(case["attrs"]), case["mode"], case.get("variant", 0)))
-                verdicts = judge(env, mid, op, version, schema, case, r, cls)
-                for key, what in verdicts:
-                    ck.failure(key, what, {"module": mid, "op": op, "kind": "call", "case": case})
-                if r["status"] != "ok":
-                    stats["raised"] += 1
-                    continue
+            try:
+                ckey = (fn, schema.name, schema.since_version)
+                first = ckey not in cache
                 if first:
-                    p = r["proto"]
-                    stats["with_omitted_inner_optional"] += int("" in list(p.input))
-                    stats["with_trimmed_trailing"] += int(len(p.input) < len(type(r["node"].inputs).__dataclass_fields__))
-                    stats["attr_values_checked"] += len(r["given"])
-                    stats["dtype_attrs"] += len(r["dtype_attrs"])
-                    stats["graph_attr_calls"] += int(any(sa.type.name == "GRAPH" for sa in schema.attributes.values()))
-                    rq = call_request(env, info, pairs[(mid, op)], schema, case, r)
-                    if rq is not None:
-                        reqs.append(rq)
-                        req_meta.append((mid, op, case, r))
-                    if len(ck.samples) < 4 and ("" in list(p.input) or r["given"]):
-                        ck.sample({"module": mid, "op": op, "case": case, "inputs": list(p.input),
-                                   "attributes": [a.name for a in p.attribute]})
+                    stats["distinct_ctor_schema"] += 1
+                    runs = []
+                    for case in gen_cases(schema, ck.rng, extra, ck.pick(3, 7)):
+                        runs.append((case, run_case(env, fn, schema, case)))
+                    for a, sa in schema.attributes.items():
+                        if sa.type.name == "SPARSE_TENSOR":
+                            case = {"present": [], "variadic": None, "attrs": [a], "mode": "kw"}
+                            runs.append((case, run_case(env, fn, schema, case)))
+                    cache[ckey] = runs
+                for case, r in cache[ckey]:
+                    stats["calls"] += 1
+                    ck.count(("call", mid, op, tuple(case["present"]), case["variadic"], tuple(case["attrs"]), case["mode"], case.get("variant", 0)))
+                    for key, what in judge(env, mid, op, version, schema, case, r, cls):
+                        ck.failure(key, what, {"module": mid, "op": op, "kind": "call", "case": case})
+                    if r["status"] != "ok":
+                        stats["raised"] += 1
+                        continue
+                    if first:
+                        p = r["proto"]
+                        stats["with_omitted_inner_optional"] += int("" in list(p.input))
+                        stats["with_trimmed_trailing"] += int(len(p.input) < len(schema.inputs))
+                        stats["attr_values_checked"] += len(r["given"])
+                        stats["dtype_attrs"] += len(r["dtype_attrs"])
+                        stats["graph_attr_calls"] += int(any(sa.type.name == "GRAPH" for sa in schema.attributes.values()))
+                        if (mid, op) in pairs:
+                            try:
+                                rq = call_request(env, info, pairs[(mid, op)], schema, case, r)
+                            except Exception as e:  # noqa: BLE001
+                                rq = None
+                                unobs += 1
+                                if unobs <= 3:
+                                    ck.broken("correspondence", f"call model request {mid}:{op} not observable", f"{type(e).__name__}: {e}")
+                            if rq is not None:
+                                reqs.append(rq)
+                                req_meta.append((mid, op, case, r))
+                        if len(ck.samples) < 4 and ("" in list(p.input) or r["given"]):
+                            ck.sample({"module": mid, "op": op, "case": case, "inputs": list(p.input),
+                                       "attributes": [a.name for a in p.attribute]})
+            except Exception as e:  # noqa: BLE001
+                unobs += 1
+                if unobs <= 3:
+                    ck.broken("correspondence", f"constructor calls of {mid}:{op} not observable", f"{type(e).__name__}: {e}")
+    stats["unobservable"] = unobs
+    return reqs, req_meta
+
+
+def run(ck: core.Check):
+    from translator import constructors
+
+    info = None
     try:
-        outs = ck.driver().ask_many("C11", reqs)
+        info = constructors.generate()
+    except Exception as e:  # noqa: BLE001
+        ck.broken("extraction", "translator/constructors.py could not read the opset modules", f"{type(e).__name__}: {e}")
+    if info is not None:
+        for p in info["problems"][:10]:
+            ck.broken("extraction", "translator/constructors.py: unclassifiable source shape", p)
+        ck.cov["pairs"] = len(info["pairs"])
+        ck.cov["pairs_per_module"] = {m: v["n_pairs"] for m, v in info["modules"].items()}
+        ck.cov["listed_deviations"] = [f"{p['module']}:{p['op']}:{','.join(p['except'])}" for p in info["pairs"] if p["except"]]
+    res = ck.lean(["SpoxModel.Props.C11"], audit="SpoxModel.Audit.C11")
+    if ck.thorough:
+        from translator.constructors import MODULES
+
+        ck.leanchecker(["SpoxModel.Props.C11"] + [f"SpoxModel.Generated.Conforms_{m[0]}" for m in MODULES])
+    bad_pairs = failing_pairs(res)
+    for p in (info or {}).get("pairs", []):
+        ck.obligations.append({"name": f"Generated.Conforms.{p['module']}.{p['theorem']}",
+                               "discharged": res.ok or ((p["module"], p["op"]) not in bad_pairs and _module_built(res, p["module"])),
+                               "axioms": None})
+
+    stats = {"calls": 0, "raised": 0, "with_omitted_inner_optional": 0, "with_trimmed_trailing": 0,
+             "attr_values_checked": 0, "dtype_attrs": 0, "graph_attr_calls": 0, "distinct_ctor_schema": 0,
+             "public_cases": 0}
+    try:
+        env = Env()
+    except Exception as e:  # noqa: BLE001
+        ck.broken("correspondence", "spox internals needed by the harness are not importable", f"{type(e).__name__}: {e}")
+        env = None
+    if env is not None and info is not None:
+        try:
+            ck.cov["extractor_vs_live_comparisons"] = validate_against_live(ck, env, info)
+        except Exception as e:  # noqa: BLE001
+            ck.broken("translator", "extraction vs live modules not observable", f"{type(e).__name__}: {e}")
+
+    # ---- model-free oracles: public API first (always runs), then the exhaustive internal one
+    if env is not None:
+        public_oracle(ck, env, stats)
+    reqs, req_meta = [], []
+    if env is not None:
+        try:
+            reqs, req_meta = internal_oracle(ck, env, info, stats, ck.pick(2, 40))
+        except Exception as e:  # noqa: BLE001
+            ck.broken("correspondence", "internal call oracle not observable", f"{type(e).__name__}: {e}")
+    outs = []
+    try:
+        outs = ck.driver().ask_many("C11", reqs) if reqs else []
     except Exception as e:  # noqa: BLE001
         ck.broken("correspondence", "C11 driver", str(e))
-        outs = []
     mism = 0
     for (mid, op, case, r), m in zip(req_meta, outs):
-        d = compare_call(env, m, r)
+        try:
+            d = compare_call(env, m, r)
+        except Exception as e:  # noqa: BLE001
+            d = f"comparison not observable: {type(e).__name__}: {e}"
         if d:
             mism += 1
             if mism <= 4:
                 ck.broken("correspondence", f"C11 call model vs real constructor {mid}:{op}", f"case={case}: {d}")
     if len(outs) != len(reqs):
         ck.broken("correspondence", "C11 driver", f"{len(outs)} answers for {len(reqs)} requests")
-    # a broken obligation without a concrete failing input still names its operator in the replay
     stats["call_model_cases"] = len(reqs)
     stats["call_model_mismatches"] = mism
     ck.cov["distribution"] = stats
@@ -898,13 +1134,16 @@ def run(ck: core.Check):
         "exhaustive over the 980 operator/module pairs: reflection (op_type, fields, signature, defaults) "
         "per pair; real constructor calls per distinct (constructor, schema): all subsets of optional inputs "
         "(<=5; else all singletons/co-singletons + random) x variadic arities x {no optional attribute, all} "
-        "+ each optional attribute alone + seeded random subsets; distinct by (module, op, inputs present, "
-        "attributes given, call style)"
+        "+ each optional attribute alone + all attribute subsets when <=3 (thorough: <=7) optional attributes "
+        "+ edge-value variant + seeded random subsets; plus 18 operators with valid typed arguments through the "
+        "public API only (constructor -> spox.build -> ModelProto) in every module; distinct by (module, op, "
+        "inputs present, attributes given, call style, value variant)"
     )
     ck.assumptions += [
         "onnx.defs of the installed onnx (1.22) is the reference for schemas",
-        "type inference/value propagation of standard operators is switched off while the oracle constructs "
-        "nodes from sentinel arguments (slotting and attributes do not depend on it; C05/C06 cover inference)",
+        "type inference/value propagation of standard operators is switched off while the exhaustive oracle "
+        "constructs nodes from sentinel arguments (slotting and attributes do not depend on it; the public-API "
+        "oracle runs with inference on; C05/C06 cover inference)",
         "translator/constructors.py's reading of the source (validated against dataclasses.fields / "
         "inspect.signature / op_type of the live modules, and behaviourally by the call-model correspondence)",
     ]
@@ -936,6 +1175,12 @@ def replay(ck: core.Check, doc) -> bool:
         print("operator or schema missing")
         return True
     verdicts = reflect(env, mid, op, cls, fn, schema) if c.get("kind") == "reflect" else []
+    if c.get("kind") == "public" and fn is not None and find_spec(op) is not None:
+        cs = c["case"]
+        res = public_case(env, fn, schema, find_spec(op), set(cs["present"]), cs["attrs"], mod)
+        if res is not None:
+            verdicts += judge(env, mid, op, version, schema, res[0], res[1])
+            verdicts += import_verdict(env, mid, op, schema, res[1])
     if c.get("kind") == "call" and fn is not None:
         r = run_case(env, fn, schema, c["case"])
         verdicts += judge(env, mid, op, version, schema, c["case"], r, cls)
